@@ -201,6 +201,27 @@ type tEmbBy2 struct {
 	By2 int `json:"by"`
 }
 
+// a deeper non-omitempty field whose JSON name a shallower omitempty field owns
+type tShadowBase struct {
+	Key  int `json:"id"`
+	Name string
+}
+
+type tNameShadowOmit struct {
+	tShadowBase
+	ID int `json:"id,omitempty"`
+}
+
+// embedded unexported non-struct types are ignored by encoding/json
+type tcount int
+type tlabel string
+
+type tEmbedUnexportedScalar struct {
+	Name string
+	tcount
+	*tlabel
+}
+
 type tStd struct {
 	T  time.Time
 	L  slog.Level
@@ -246,7 +267,14 @@ type tBad struct {
 }
 
 // unsupported kinds below containers and pointers ("at any depth")
+type tCallback func(string) error
+type tIntKeyed map[int]string
+
 type tBadNested struct {
+	CB1 tCallback `jsonschema:"first occurrence of a named unsupported type"`
+	CB2 tCallback
+	IK1 tIntKeyed
+	IK2 *tIntKeyed `jsonschema:"described"`
 	M   map[string]func()
 	MM  map[string]map[string]chan int
 	S   []func()
@@ -284,7 +312,7 @@ func TypeFamily() []TypeCase {
 		tc[tPointersA]("tPointersA"), tc[tPointersB]("tPointersB"), tc[tContainersA]("tContainersA"), tc[tContainersB]("tContainersB"), tc[tContainersC]("tContainersC"),
 		tc[tEmbedValue]("tEmbedValue"), tc[tEmbedPtr]("tEmbedPtr"), tc[tEmbedShadow]("tEmbedShadow"), tc[tEmbedAmbiguous]("tEmbedAmbiguous"), tc[tEmbedTagged]("tEmbedTagged"), tc[tEmbedScalar]("tEmbedScalar"), tc[tEmbedTaggedExported]("tEmbedTaggedExported"),
 		tc[tEmbedTaggedThenPlain]("tEmbedTaggedThenPlain"), tc[tEmbedScalarThenPlain]("tEmbedScalarThenPlain"), tc[tEmbedDeepTagged]("tEmbedDeepTagged"), tc[tEmbedDeepPlain]("tEmbedDeepPlain"), tc[tEmbedPlainThenTagged]("tEmbedPlainThenTagged"),
-		tc[tNameShallowFirst]("tNameShallowFirst"), tc[tNameShallowLast]("tNameShallowLast"), tc[tNameTaggedWins]("tNameTaggedWins"), tc[tNameDeepConflict]("tNameDeepConflict"),
+		tc[tNameShallowFirst]("tNameShallowFirst"), tc[tNameShallowLast]("tNameShallowLast"), tc[tNameTaggedWins]("tNameTaggedWins"), tc[tNameDeepConflict]("tNameDeepConflict"), tc[tNameShadowOmit]("tNameShadowOmit"), tc[tEmbedUnexportedScalar]("tEmbedUnexportedScalar"),
 		tc[tNamed]("tNamed"), tc[tNamedInt]("tNamedInt"), tc[tNamedSlice]("tNamedSlice"), tc[tDup]("tDup"), tc[tWeirdTags]("tWeirdTags"),
 	}
 	std := tc[tStd]("tStd")
@@ -388,6 +416,11 @@ func ForScaffold() (int, []string) {
 	done := make(chan struct{})
 	go func() {
 		defer close(done)
+		defer func() {
+			if r := recover(); r != nil {
+				bad = append(bad, fmt.Sprintf("For panicked on a recursive or unsupported type: %v", r))
+			}
+		}()
 		if _, err := jsonschema.ForType(reflect.TypeFor[tRecursive](), nil); err == nil {
 			bad = append(bad, "tRecursive: no error for a recursive type")
 		}
